@@ -164,7 +164,14 @@ def run_case(case: dict[str, Any], ctx: Ctx) -> None:
     fac = backends.factory(ctx.tmpdir())
     past_startup = case["n_trials"] > (case["sampler"]["n_startup"] if sk.startswith("tpe") or sk == "gp" else case["sampler"]["pop"] if sk in GA else 1)
     try:
-        base, base_study = run_one(case, optuna.storages.InMemoryStorage())
+        try:
+            base, base_study = run_one(case, optuna.storages.InMemoryStorage())
+        except (IndexError, KeyError, AssertionError, TypeError) as e:
+            # optimize() crashes already on the reference run (e.g. the GP sampler or a GA sampler
+            # under HyperbandPruner with a conditional search space: DESIGN.md 6.3): there is no
+            # sequence to compare, and the crash is not this property's subject
+            ctx.sound_skip(f"the reference run crashes inside optuna ({type(e).__name__}, sampler {sk} x pruner {case['pruner']['kind']})")
+            return
         n_done = 0
         for v in case["variants"]:
             id_offset = v.startswith("offset:") or "sqlite" in v  # SQLite ids start at 1
